@@ -155,8 +155,58 @@ class Flow(object):
             alts = new
         return alts
 
-    def expand_text(self, expr, at, depth=5):
-        return sorted(set(unparse(a) for a in self.expand(expr, at, depth)))
+    def expand_text(self, expr, at, depth=5, simplify=False):
+        alts = self.expand(expr, at, depth)
+        if simplify:
+            alts = [simplify_expr(a, self.env) for a in alts]
+        return sorted(set(unparse(a) for a in alts))
+
+
+def simplify_expr(expr, env):
+    """Resolve conditional expressions decided by ``env`` and fold f-strings /
+    str.format with constant parts into plain string constants."""
+    from .cfg import eval3
+
+    def go(n):
+        if isinstance(n, list):
+            return [go(x) for x in n]
+        if not isinstance(n, ast.AST):
+            return n
+        if isinstance(n, ast.IfExp):
+            v = eval3(n.test, env)
+            if v is True:
+                return go(n.body)
+            if v is False:
+                return go(n.orelse)
+        new = n.__class__()
+        for f in n._fields:
+            if hasattr(n, f):
+                setattr(new, f, go(getattr(n, f)))
+        for a in ("lineno", "col_offset", "end_lineno", "end_col_offset"):
+            if hasattr(n, a):
+                setattr(new, a, getattr(n, a))
+        if isinstance(new, ast.JoinedStr):
+            parts = []
+            for v in new.values:
+                if isinstance(v, ast.Constant) and isinstance(v.value, str):
+                    parts.append(v.value)
+                elif isinstance(v, ast.FormattedValue) and isinstance(v.value, ast.Constant) \
+                        and isinstance(v.value.value, str) and v.format_spec is None and v.conversion == -1:
+                    parts.append(v.value.value)
+                else:
+                    return new
+            c = ast.Constant(value="".join(parts))
+            return ast.copy_location(c, new) if hasattr(new, "lineno") else c
+        if isinstance(new, ast.Call) and isinstance(new.func, ast.Attribute) and new.func.attr == "format" \
+                and isinstance(new.func.value, ast.Constant) and isinstance(new.func.value.value, str) \
+                and not new.keywords and all(isinstance(a, ast.Constant) for a in new.args):
+            try:
+                return ast.Constant(value=new.func.value.value.format(*[a.value for a in new.args]))
+            except Exception:
+                return new
+        return new
+
+    return go(expr)
 
 
 def clone(node):
